@@ -3,7 +3,7 @@
 The harness ops are the existing internal entry points `S1`, `Phi0`, `Sigma`, `S2_trivial` (harness/ops_alg.cpp) plus the
 file-local functions `S1_thread<MU>`, `Phi0_thread<MU>`, `Sigma0..3/Sigma456` (harness/ops_leafloops.cpp,
 ops_sigmaparts.cpp).  Every op list is judged twice where possible:
-  * mirror  (oracle=False): pcdrv executes the control-flow mirror (`*_loop`, `s1thread`, `phi0thread`, `sigma_parts`),
+  * mirror: pcdrv executes the control-flow mirror (`*_loop`, `s1thread`, `phi0thread`, `sigma_parts`),
     which PcProps/C08Leaf.lean proves equal to the Pc.Spec definition for all admissible parameters;
   * definition (oracle=True): pcdrv evaluates the naive defining sum (PcModel/Formulas.lean), as the older streams do.
 """
@@ -190,7 +190,10 @@ def error_ops(ctx):
 def streams(ctx):
     s1, phi0, sigma, triv = small_ops(ctx)
     small = s1 + phi0 + sigma + triv
-    sts = [Stream("leafloops_small_mirror", small + error_ops(ctx), oracle=False, model_ops=_rename(LOOP),
+    # oracle=True: every input below satisfies the hypotheses of PcProps/C08Leaf.lean (s1_loop_op, phi0_loop_op,
+    # sigma_loop_eq_executable, s2_trivial_loop_eq_executable, s2_trivial_rejects_c0), so the mirror's answer is a PROVED
+    # value of the definition and a disagreement is a failing input of the property
+    sts = [Stream("leafloops_small_mirror", small + error_ops(ctx), oracle=True, model_ops=_rename(LOOP),
                   nontrivial=_nontrivial, classify=_classify, timeout=1500)]
     # the same op lines against the naive defining sums (existing model ops S1 / Phi0 / Sigma / S2_trivial).
     # The older model ops size their table by (x, y, z) only, so the defining sum is evaluated over the first
@@ -203,7 +206,7 @@ def streams(ctx):
     sts.append(Stream("leafloops_thread_functions", thread_ops(ctx), oracle=False, nontrivial=_nontrivial,
                       classify=_classify, timeout=1500))
     mirror, defs = sampled_ops(ctx)
-    sts.append(Stream("leafloops_sampled_mirror", mirror, oracle=False, model_ops=_rename(LOOP),
+    sts.append(Stream("leafloops_sampled_mirror", mirror, oracle=True, model_ops=_rename(LOOP),
                       nontrivial=_nontrivial, classify=_classify, timeout=1800))
     sts.append(Stream("leafloops_sampled_definitions", defs, oracle=True, nontrivial=_nontrivial,
                       classify=_classify, timeout=1800))
